@@ -8,5 +8,6 @@ CONSTANTS
   UntouchedIfNoSite = TRUE
   WalkEverywhere = TRUE
   OnePin = FALSE
+  SiteIndependent = TRUE
   Tier = "neg"
 INVARIANTS OnePinPerStatement
